@@ -6,6 +6,14 @@ Model (all from direct os.walk listings, never through the code under test):
              disappear through the machine's own delete_remote rule, so a listing after every step sees
              every delivery),
   children = {directory id: ids it lists}, from the harness' own manifests.
+
+Failed transfers come in three kinds: upload failures / aborts injected at the final placement call
+(vd/faults.Injector), pushes that lack a source object, and calls interrupted at the n-th WRITE TRANSACTION of
+the remote index: ObjectDBIndex.update() is the only writer that uses transactions (`self.index.transact()`,
+one for the directory entry, one for the nested files), so the narrowest hook is the `transact` attribute of the
+diskcache Index instance held by the index handle in use. While armed, the n-th call either raises IndexKill
+(a BaseException: the process died before that transaction began; everything committed earlier stays) or
+diskcache's Timeout (which update() documents to surface as ObjectDBError).
 """
 
 import hashlib
@@ -38,6 +46,53 @@ def _world():
     })
 
 
+class IndexKill(BaseException):
+    """The process died at the beginning of a write transaction of the remote index."""
+
+
+class TxHook:
+    """Arms the n-th write transaction of one index handle (see module docstring)."""
+
+    def __init__(self, index, spec):
+        self.idx = index.index  # the diskcache Index behind the ObjectDBIndex handle
+        self.at = spec["at"] if spec else None
+        self.how = spec["how"] if spec else None
+        self.n = 0
+        self.fired = False
+
+    def __enter__(self):
+        if self.at is None:
+            return self
+        orig = self.idx.transact
+
+        def transact():
+            self.n += 1
+            if self.n == self.at:
+                self.fired = True
+                if self.how == "timeout":
+                    from dvc_data.hashfile.cache import Timeout
+
+                    raise Timeout("injected: index write transaction timed out")
+                raise IndexKill(f"killed entering index write transaction #{self.n}")
+            return orig()
+
+        self.idx.transact = transact
+        return self
+
+    def __exit__(self, *exc):
+        self.idx.__dict__.pop("transact", None)
+        return False
+
+
+# None (usually) or: abort the call at its n-th index write transaction; afterwards keep or reopen the handle
+_IDX_ABORT = st.one_of(
+    st.none(), st.none(), st.none(),
+    st.fixed_dictionaries({"at": st.sampled_from([1, 2, 2, 2, 3, 4, 4]),
+                           "how": st.sampled_from(["kill", "kill", "timeout"]),
+                           "reopen": st.booleans()}),
+)
+
+
 def _op(name, **kw):
     return st.fixed_dictionaries({"op": st.just(name), **kw})
 
@@ -50,14 +105,16 @@ _PUSH = _op(
     abort_at=st.sampled_from([None, None, None, None, None, None, None, None, 1, 2, 3, 5]),
     jobs=st.sampled_from([1, 1, 4]),
     trees_from=st.sampled_from(["cache", "cache", "remote"]),
+    index_abort=_IDX_ABORT,
 )
-_FETCH = _op("fetch", request=st.lists(st.integers(0, 7), min_size=1, max_size=2), jobs=st.sampled_from([1, 4]))
+_FETCH = _op("fetch", request=st.lists(st.integers(0, 7), min_size=1, max_size=2), jobs=st.sampled_from([1, 4]),
+             index_abort=_IDX_ABORT)
 _STATUS = _op("status", query=st.lists(st.integers(0, 40), min_size=1, max_size=6),
               qdirs=st.lists(st.integers(0, 7), max_size=2), shallow=st.booleans(),
               trees_from=st.sampled_from(["cache", "cache", "remote"]),
-              jobs=st.sampled_from([None, 1, 4]))
+              jobs=st.sampled_from([None, 1, 4]), index_abort=_IDX_ABORT)
 _DELETE = _op("delete_remote", picks=st.lists(st.integers(0, 40), min_size=1, max_size=3),
-              what=st.sampled_from(["indexed-dirs", "dirs", "files", "any"]))
+              what=st.sampled_from(["indexed-dirs", "dirs", "files", "any", "tree", "tree"]))
 _REOPEN = _op("reopen")
 _DELCACHE = _op("delete_cache", picks=st.lists(st.integers(0, 40), min_size=1, max_size=2))
 _OPS = {"push": _PUSH, "fetch": _FETCH, "status": _STATUS, "delete_remote": _DELETE, "reopen": _REOPEN,
@@ -97,6 +154,7 @@ class IndexMachine(TraceMachine):
         self.n_faults = 0
         self.n_aborts = 0
         self.n_fetch = 0
+        self.n_idx_aborts = 0
         self.op = "initial"
 
     def _open(self):
@@ -136,7 +194,8 @@ class IndexMachine(TraceMachine):
         return Result([], self.nontrivial, sorted(self.labels),
                       {"index_histories": 1, "index_steps": len(self.trace),
                        "status_evaluations_with_index": self.n_status,
-                       "faults_injected": self.n_faults, "abort_points": self.n_aborts})
+                       "faults_injected": self.n_faults, "abort_points": self.n_aborts,
+                       "index_transaction_aborts": self.n_idx_aborts})
 
     # ---- observation helpers -------------------------------------------------------------------
     def listing(self):
@@ -172,6 +231,40 @@ class IndexMachine(TraceMachine):
             self.violate(f"stale-index-files-kept:{op}",
                          f"{op} found indexed directories {sorted(stale)} gone, yet the index still holds "
                          f"files {orphans} that no directory it holds lists")
+
+    def _check_validated(self, queried_dirs, op):
+        """A call that queried >= 1 directory re-validated the index against the store ('a stale index is
+        cleared'): afterwards the index holds no identifier that is neither in the store nor listed by a
+        directory object that is there. (Holds for interrupted calls too: validation precedes every index
+        write and every upload of the call.)"""
+        if not queried_dirs:
+            return
+        now = self.listing()
+        idx = set(self.index)
+        unvouched = sorted(idx - now - self.listed_by(now))
+        if unvouched:
+            self.violate(f"stale-index-not-cleared:{op}",
+                         f"{op} queried directories {sorted(queried_dirs)}, yet afterwards the index holds "
+                         f"{unvouched}: neither in the remote nor listed by a directory object that is there")
+
+    def _after_index_abort(self, hook, spec, op):
+        """Bookkeeping after a call that ran under an index-transaction plan."""
+        if not hook.fired:
+            return
+        self.disturbed = True
+        self.n_idx_aborts += 1
+        self.labels.add(f"{op}-index-{spec['how']}")
+        self.labels.add(f"index-abort-at={spec['at']}")
+        idx = set(self.index)
+        if idx and not any(i.endswith(".dir") for i in idx):
+            self.labels.add("index-files-without-dir-entry")
+        if any(i.endswith(".dir") and not (self.w.dir_children[i] & idx) for i in idx):
+            self.labels.add("index-dir-entry-without-files")
+        if spec.get("reopen"):
+            self.index.close()
+            self.index = None
+            self._open()
+            self.labels.add("reopen-after-index-abort")
 
     def _check_reported(self, exists, at_listing, op):
         """ids a status answer reports as existing in the remote, against the listing at that moment."""
@@ -210,7 +303,9 @@ class IndexMachine(TraceMachine):
         self.op = op["op"]
         getattr(self, "do_" + op["op"])(**args)
 
-    def do_push(self, request, form, fail, abort_at, jobs, trees_from):
+    def do_push(self, request, form, fail, abort_at, jobs, trees_from, index_abort=None):
+        from dvc_objects.errors import ObjectDBError
+
         from dvc_data.hashfile.transfer import transfer
 
         if self.w is None:
@@ -236,24 +331,34 @@ class IndexMachine(TraceMachine):
         self._status_evaluated()
         res, aborted = None, False
         inj = Injector([self.remote_root], fail=plan, abort_at=abort_at if not fail else None)
-        with inj:
+        hook = TxHook(self.index, index_abort)
+        with inj, hook:
             try:
                 res = transfer(self.cache, self.remote, set(hinfos(ids)), **kw)
             except Abort:
                 aborted = True
+            except IndexKill:
+                aborted = True
+            except ObjectDBError:
+                if not (hook.fired and hook.how == "timeout"):
+                    raise
+                aborted = True
         self.n_faults += len(inj.faulted)
-        self.n_aborts += int(aborted)
+        self.n_aborts += int(aborted and not hook.fired)
+        qdirs = {i for i in ids if i.endswith(".dir")}
         if "status" in seen:
             cs = seen["status"]
             self._check_reported(_vals(cs.ok) | _vals(cs.deleted), seen["listing"], "push")
-        self._check_cleared(stale, {i for i in ids if i.endswith(".dir")}, "push")
+        self._check_cleared(stale, qdirs, "push")
+        self._check_validated(qdirs, "push")
+        self._after_index_abort(hook, index_abort, "push")
         failed = bool(inj.faulted) or aborted or bool(res is not None and res.failed)
         if res is not None and res.failed and not inj.faulted:
             self.labels.add("push-failed-source-missing")
         if failed:
             self.disturbed = True
             self.labels.add("push-aborted" if aborted else "push-failed")
-            hit = {k for _, k in inj.faulted} | ({inj.attempts[-1][1]} if aborted else set())
+            hit = {k for _, k in inj.faulted} | ({inj.attempts[-1][1]} if inj.aborted else set())
             if hit & self.listed_by({i for i in ids if i.endswith(".dir")}):
                 self.labels.add("fault-on-listed-file")
         elif res is not None and res.transferred:
@@ -262,7 +367,9 @@ class IndexMachine(TraceMachine):
             self.labels.add("push-noop")
         self.labels.add("push-" + form)
 
-    def do_fetch(self, request, jobs):
+    def do_fetch(self, request, jobs, index_abort=None):
+        from dvc_objects.errors import ObjectDBError
+
         from dvc_data.hashfile.transfer import transfer
 
         if self.w is None:
@@ -278,13 +385,28 @@ class IndexMachine(TraceMachine):
             seen["listing"] = self.listing()
 
         self._status_evaluated()
-        res = transfer(self.remote, dest, set(hinfos(ids)), jobs=jobs, src_index=self.index,
-                       cache_odb=self.cache, shallow=True, validate_status=validate)
-        cs = seen["status"]
-        # the destination is empty, so the source was consulted: src_exists = ok | new
-        self._check_reported(_vals(cs.ok) | _vals(cs.new), seen["listing"], "fetch")
-        self._check_cleared(stale, {i for i in ids if i.endswith(".dir")}, "fetch")
-        if res.failed:
+        res = None
+        hook = TxHook(self.index, index_abort)
+        with hook:
+            try:
+                res = transfer(self.remote, dest, set(hinfos(ids)), jobs=jobs, src_index=self.index,
+                               cache_odb=self.cache, shallow=True, validate_status=validate)
+            except IndexKill:
+                pass
+            except ObjectDBError:
+                if not (hook.fired and hook.how == "timeout"):
+                    raise
+        qdirs = {i for i in ids if i.endswith(".dir")}
+        if "status" in seen:
+            cs = seen["status"]
+            # the destination is empty, so the source was consulted: src_exists = ok | new
+            self._check_reported(_vals(cs.ok) | _vals(cs.new), seen["listing"], "fetch")
+        self._check_cleared(stale, qdirs, "fetch")
+        self._check_validated(qdirs, "fetch")
+        self._after_index_abort(hook, index_abort, "fetch")
+        if res is None:
+            self.labels.add("fetch-interrupted")
+        elif res.failed:
             self.disturbed = True
             self.labels.add("fetch-failed")
         elif res.transferred:
@@ -292,7 +414,9 @@ class IndexMachine(TraceMachine):
         else:
             self.labels.add("fetch-nothing-there")
 
-    def do_status(self, query, qdirs, shallow, jobs, trees_from="cache"):
+    def do_status(self, query, qdirs, shallow, jobs, trees_from="cache", index_abort=None):
+        from dvc_objects.errors import ObjectDBError
+
         from dvc_data.hashfile.status import status
 
         if self.w is None:
@@ -307,15 +431,31 @@ class IndexMachine(TraceMachine):
         # shallow queries may read trees from the remote itself (cache_odb=None); expanded ones need every
         # queried directory loadable, which only the cache guarantees
         cache_odb = None if (trees_from == "remote" and shallow) else self.cache
-        res = status(self.remote, hinfos(q), index=self.index, cache_odb=cache_odb, shallow=shallow, jobs=jobs)
+        res = None
+        hook = TxHook(self.index, index_abort)
+        with hook:
+            try:
+                res = status(self.remote, hinfos(q), index=self.index, cache_odb=cache_odb, shallow=shallow,
+                             jobs=jobs)
+            except IndexKill:
+                pass
+            except ObjectDBError:
+                if not (hook.fired and hook.how == "timeout"):
+                    raise
         now = self.listing()
-        ex, mi = _vals(res.exists), _vals(res.missing)
-        if ex & mi or (ex | mi) != Q:
-            self.violate("status-not-a-partition",
-                         f"status(index) of {q} (shallow={shallow}): exists {sorted(ex)} / missing {sorted(mi)} "
-                         f"do not partition the queried ids {sorted(Q)}")
-        self._check_reported(ex, now, "status")
+        if res is not None:
+            ex, mi = _vals(res.exists), _vals(res.missing)
+            if ex & mi or (ex | mi) != Q:
+                self.violate("status-not-a-partition",
+                             f"status(index) of {q} (shallow={shallow}): exists {sorted(ex)} / missing "
+                             f"{sorted(mi)} do not partition the queried ids {sorted(Q)}")
+            self._check_reported(ex, now, "status")
+        else:
+            self.labels.add("status-interrupted")
+        # the index is validated (and cleared) before its first write, so these hold for interrupted calls too
         self._check_cleared(stale, {i for i in q if i.endswith(".dir")}, "status")
+        self._check_validated({i for i in q if i.endswith(".dir")}, "status")
+        self._after_index_abort(hook, index_abort, "status")
         self.labels.add("status-" + ("shallow" if shallow else "expanded"))
         if any(i.endswith(".dir") for i in q):
             self.labels.add("status-queries-dir")
@@ -326,6 +466,21 @@ class IndexMachine(TraceMachine):
         if self.w is None:
             return
         have = sorted(self.listing())
+        if what == "tree":
+            # a whole directory disappears (its object and every file it lists), preferably one the index
+            # knows something about
+            idx = set(self.index)
+            dirs = [i for i in have if i.endswith(".dir")]
+            known = [i for i in dirs if i in idx or self.w.dir_children[i] & idx]
+            dirs = known or dirs
+            if not dirs:
+                return
+            d = dirs[picks[0] % len(dirs)]
+            for oid in [d, *sorted(self.w.dir_children[d])]:
+                if external_delete(self.remote_root, oid):
+                    self.disturbed = True
+                    self.labels.add("deleted-tree")
+            return
         if what == "indexed-dirs":
             have = [i for i in have if i.endswith(".dir") and i in self.index] or have
         if what == "dirs":
